@@ -47,6 +47,10 @@ func envInt(k string, d int) int {
 
 const ms = time.Millisecond
 
+// siteSignal carries the names of the in-library yield sites as they are reached
+// (only with the verif tag and the gofail rewrite; otherwise nothing is ever sent).
+var siteSignal = make(chan string, 64)
+
 func genSpec(r *rand.Rand, name string) *h.Spec {
 	hb := []time.Duration{20 * ms, 30 * ms, 50 * ms}[r.IntN(3)]
 	n := 2 + r.IntN(3)
@@ -83,7 +87,7 @@ type counters struct {
 
 func (c *counters) inc(k string) { c.calls[k].Add(1) }
 
-var apiNames = []string{"IsLeader", "LeaderID", "Token", "Status", "ValidateToken", "ValidateTokenOrDemote", "OnPromote", "OnDemote", "Start", "Stop", "StopWithContext", "conn.D", "conn.R", "conn.C", "outside"}
+var apiNames = []string{"site.graceExpiredAfterUnlock", "site.reconnectEntry", "IsLeader", "LeaderID", "Token", "Status", "ValidateToken", "ValidateTokenOrDemote", "OnPromote", "OnDemote", "Start", "Stop", "StopWithContext", "conn.D", "conn.R", "conn.C", "outside"}
 
 func TestBatch(t *testing.T) {
 	outPath := os.Getenv("VERIF_OUT")
@@ -113,6 +117,12 @@ func TestBatch(t *testing.T) {
 
 func runScenario(t *testing.T, r *rand.Rand, res *h.Result) {
 	spec := genSpec(r, res.Name)
+	// every other scenario is "calm": no outside party and rare lifecycle calls, so that
+	// terms live long enough for grace periods to run out, verifications to complete, etc.
+	calm := r.IntN(2) == 0
+	if calm {
+		res.Obs["c20.scenarios_calm"]++
+	}
 	x, err := h.NewRT(spec)
 	if err != nil {
 		res.Inconclusive = "build: " + err.Error()
@@ -229,7 +239,16 @@ func runScenario(t *testing.T, r *rand.Rand, res *h.Result) {
 						return
 					default:
 					}
-					time.Sleep(time.Duration(20+rl.IntN(150)) * ms)
+					if calm {
+						time.Sleep(time.Duration(300+rl.IntN(500)) * ms)
+					} else {
+						time.Sleep(time.Duration(20+rl.IntN(150)) * ms)
+					}
+					select {
+					case <-stop:
+						return
+					default:
+					}
 					life.RLock()
 					switch rl.IntN(4) {
 					case 0:
@@ -252,6 +271,7 @@ func runScenario(t *testing.T, r *rand.Rand, res *h.Result) {
 		// as the real client has)
 		if conn := x.Conn(name); conn != nil {
 			rc := rand.New(rand.NewPCG(seeds(), 3))
+			grace := x.InstSpec(name).Grace
 			wg.Add(1)
 			go func() {
 				defer wg.Done()
@@ -278,7 +298,50 @@ func runScenario(t *testing.T, r *rand.Rand, res *h.Result) {
 						f(conn)
 						cnt.inc(which)
 					}
-					time.Sleep(time.Duration(rc.IntN(40)) * ms)
+					// let the grace period run out now and then (otherwise the next notification
+					// always comes first and the expiry path is never executed)
+					if which == "conn.D" && grace > 0 && rc.IntN(2) == 0 {
+						tm := time.After(grace + time.Duration(rc.IntN(20))*ms)
+					wait:
+						for {
+							select {
+							case <-tm:
+								break wait
+							case site := <-siteSignal:
+								if site == "graceExpiredAfterUnlock" {
+									life.Lock()
+									d2 := conn.Opts.DisconnectedCB
+									life.Unlock()
+									if d2 != nil {
+										d2(conn)
+										cnt.inc("conn.D")
+										cnt.inc("site." + site)
+									}
+								}
+							case <-stop:
+								return
+							}
+						}
+					}
+					// wait for the next notification time - or fire at once when the library
+					// has just reached one of the connection-handler windows (a disconnect that
+					// arrives exactly as the grace period expires, a reconnect during a reconnect)
+					select {
+					case site := <-siteSignal:
+						if site == "graceExpiredAfterUnlock" || site == "reconnectEntry" {
+							life.Lock()
+							d2 := conn.Opts.DisconnectedCB
+							life.Unlock()
+							if d2 != nil {
+								d2(conn)
+								cnt.inc("conn.D")
+								cnt.inc("site." + site)
+							}
+						}
+					case <-time.After(time.Duration(rc.IntN(40)) * ms):
+					case <-stop:
+						return
+					}
 				}
 			}()
 		}
@@ -293,6 +356,9 @@ func runScenario(t *testing.T, r *rand.Rand, res *h.Result) {
 			case <-stop:
 				return
 			case <-time.After(time.Duration(50+ro.IntN(200)) * ms):
+			}
+			if calm {
+				continue
 			}
 			switch ro.IntN(3) {
 			case 0:
@@ -333,6 +399,14 @@ func runScenario(t *testing.T, r *rand.Rand, res *h.Result) {
 		}
 	}
 	res.Obs["c20.terms"] += terms
+	for _, e := range ev {
+		if e.Kind == "log" && e.Msg == "demoting_due_to_connection_loss" {
+			res.Obs["c20.grace_expiries"]++
+		}
+		if e.Kind == "log" && (e.Msg == "reconnect_verification_success" || e.Msg == "reconnect_verification_failed") {
+			res.Obs["c20.verifications"]++
+		}
+	}
 	res.FP["all"] = fmt.Sprintf("%s:%d:%d", spec.Name, len(spec.Insts), terms)
 	res.Sample = []string{fmt.Sprintf("instances=%d H=%v TTL=%v terms=%d events=%d", len(spec.Insts), spec.Insts[0].H, spec.TTL, terms, len(ev))}
 }
